@@ -17,11 +17,12 @@ ANALYTIC = ['sin', 'cos', 'tan', 'cot', 'sec', 'csc', 'asin', 'acos', 'atan', 'a
             'asinh', 'acosh', 'atanh', 'acoth', 'asech', 'acsch', 'exp', 'log', 'sqrt', 'cbrt', 'erf', 'erfc', 'gamma', 'loggamma', 'lambertw',
             'digamma', 'trigamma']
 REALONLY = ['abs', 'sign', 'conjugate', 'floor', 'ceiling']
+SAFE = ['sin', 'cos', 'exp', 'sinh', 'cosh', 'tanh', 'atan', 'asinh', 'erf', 'erfc', 'sech', 'acot']   # analytic on the whole real line
 TWO = ['atan2', 'lowergamma', 'uppergamma', 'beta', 'polygamma', 'zeta', 'log', 'max', 'min']
 
 
 def rand_expr(rng, depth, real):
-    un = ANALYTIC + (REALONLY if real else [])
+    un = (SAFE + REALONLY) if real else ANALYTIC
     if depth <= 0 or rng.random() < 0.12:
         return gen.rand_leaf(rng, complex_=not real, floats=False)
     r = rng.random()
@@ -29,7 +30,7 @@ def rand_expr(rng, depth, real):
     if r < 0.32:
         return (rng.choice(un), sub())
     if r < 0.40:
-        f = rng.choice(TWO if real else ['lowergamma', 'uppergamma', 'beta', 'log', 'polygamma'])
+        f = rng.choice(['atan2', 'max', 'min'] if real else ['lowergamma', 'uppergamma', 'beta', 'log', 'polygamma', 'zeta'])
         if f == 'polygamma':
             return (f, I(rng.choice((0, 1, 2))), sub())
         if f in ('lowergamma', 'uppergamma'):
@@ -44,6 +45,8 @@ def rand_expr(rng, depth, real):
         inner = rand_expr(rng, max(0, depth - 2), real)
         v = rng.choice((X, Y))
         return ('derivative', ('func', rng.choice(('f', 'g')), v, rng.choice((X, Y, Z))), v)
+    if real:
+        return (rng.choice(('add', 'mul', 'sub')), sub(), sub()) if rng.random() < 0.85 else ('pow', sub(), I(rng.choice((2, 3))))
     return gen.rand_arith(rng, 1, unary=(), complex_=not real) if rng.random() < 0.15 else \
         (rng.choice(('add', 'mul', 'sub', 'div', 'pow')), sub(), sub())
 
@@ -61,6 +64,8 @@ def _deriv_judge(args):
         return _deriv_judge_inner(args)
     except _value.OracleTimeout:
         return cid, 'inconclusive', 'oracle timeout'
+    except MemoryError:
+        return cid, 'inconclusive', 'oracle out of memory'
     finally:
         try:
             signal.setitimer(signal.ITIMER_REAL, 0)
@@ -84,6 +89,9 @@ def _deriv_judge_inner(args):
                         e2 = dict(env)
                         e2[var] = t
                         return oracle_e.Evaluator(e2).ev(te)
+                    f0 = f(x0)
+                    if oracle_e.kind_of(f0) != 'finite':
+                        continue
                     d1 = mp.diff(f, x0, h=mpf(10) ** -18)
                     d2 = mp.diff(f, x0, h=mpf(10) ** -14)
                     rv = oracle_e.Evaluator(env).ev(tr)
@@ -94,9 +102,19 @@ def _deriv_judge_inner(args):
                         continue
                     if abs(d1) > mpf(10) ** 12:
                         continue
+                    # rounding noise of the difference quotient (|f| * 10**-60 / h) must be far below what is being compared
+                    if abs(f0) * mpf(10) ** -42 > mpf(10) ** -14 * max(abs(d1), abs(rv), mpf(10) ** -10):
+                        continue
                     if oracle_e.rel_diff(d1, rv) <= mpf(10) ** -9 or (abs(d1) < mpf(10) ** -14 and abs(rv) < mpf(10) ** -14):
                         good += 1
                     else:
+                        # conditioning: both sides must be stable when the working precision is raised
+                        with mp.workdps(110):
+                            rv2 = oracle_e.Evaluator(env).ev(tr)
+                            d3 = mp.diff(f, x0, h=mpf(10) ** -30)
+                        if oracle_e.kind_of(rv2) != 'finite' or oracle_e.kind_of(d3) != 'finite' or \
+                                oracle_e.rel_diff(rv, rv2) > mpf(10) ** -20 or oracle_e.rel_diff(d1, d3) > mpf(10) ** -11:
+                            continue
                         if bad is None:
                             bad = (dict((k, str(v)) for k, v in env.items()), str(mp.nstr(d1, 20)), str(mp.nstr(rv, 20)))
                         else:
@@ -114,6 +132,15 @@ def _deriv_judge_inner(args):
     if good and bad is None:
         return cid, 'ok', None
     return cid, 'inconclusive', 'no usable point' if bad is None else 'not reproduced at a second point'
+
+
+def _subnodes(t):
+    if isinstance(t, list) and t and isinstance(t[0], str) and t[0] != 'T':
+        yield t
+    if isinstance(t, list):
+        for a in t[1:]:
+            if isinstance(a, list):
+                yield from _subnodes(a)
 
 
 def occurs(tree, name):
@@ -143,7 +170,8 @@ class C(Check):
         for k in range(self.q(5000, 150000)):
             real = rng.random() < 0.3
             e = rand_expr(rng, rng.choice((1, 2, 2, 3)), real)
-            var = rng.choice(('x', 'x', 'y', 'w'))
+            names = sorted(oracle_e.symbols_of(e)) or ['x']
+            var = rng.choice(names) if rng.random() < 0.85 else rng.choice(('x', 'y', 'w'))
             second = rng.choice((None, None, None, 'x', 'y'))
             it = self.make(e, var, second, 'e%d' % k)
             it['real'] = real
@@ -180,7 +208,16 @@ class C(Check):
                 self.evaluations += 1
                 self.count('absent-variable')
                 if td != ['Integer', '0']:
-                    self.violation(dict(clause='not-zero-for-absent-variable'), dict(program=prog, result=sd.v['s'], config='asan'))
+                    try:
+                        env0 = {n: mpf(1) / 3 for n in oracle_e.symbols_of(te)}
+                        finite = _value.bounded(lambda: all(oracle_e.kind_of(oracle_e.evaluate(sub, env0, 30)) == 'finite' for sub in _subnodes(te)),
+                                                seconds=5, default=False)
+                    except Exception:
+                        finite = False
+                    if not finite:
+                        self.inconclusive += 1      # the 'constant' is itself singular (e.g. atanh(atanh(1))): no value to differentiate
+                        continue
+                    self.violation(dict(clause='not-zero-for-absent-variable', has_nan='"NaN"' in __import__('json').dumps(td)), dict(program=prog, result=sd.v['s'], config='asan'))
                 continue
             # (c) cache
             sc = r.s(4)
@@ -192,7 +229,7 @@ class C(Check):
                 if s1 is not None and s2 is not None and s1.st == 'ok' and s2.st == 'ok':
                     it['_mixed'] = (s1.v['t'], s2.v['t'])
         ctx = mp_.get_context('fork')
-        with ctx.Pool(NCPU) as pool:
+        with ctx.Pool(NCPU, initializer=_value.limit_worker_memory) as pool:
             out = pool.map(_deriv_judge, tojudge, chunksize=max(1, len(tojudge) // (NCPU * 8)))
         cands = []
         mixed = []
@@ -253,6 +290,8 @@ class C(Check):
                 else:
                     small = it['e']
             key = dict(clause='value', shape=gen.recipe_str(_shape(small)))
+            if 'acosh' in key['shape'] or 'asech' in key['shape']:
+                key = dict(clause='value', family='acosh-asech-derivative-branch')
             ks = str(sorted(key.items()))
             if ks in seen:
                 continue
